@@ -67,6 +67,9 @@ type Exec struct {
 	lastPos      token.Pos
 	queries      int
 	tweaks       int
+	mapSites     int
+	mapSite      int
+	rotations    []string
 	initPkg      *ssa.Package
 	canonMemo    map[*Term]*Term
 	canonTab     map[canonKey]*Term
@@ -1184,9 +1187,14 @@ func (x *Exec) rangeOver(c Value) Value {
 			n := len(m.M.E)
 			it.entries = make([]MapEntry, n)
 			copy(it.entries, m.M.E)
-			if x.mapFree && n > 1 {
+			site := -1
+			if n > 1 {
+				site = x.mapSites
+				x.mapSites++
+			}
+			if n > 1 && (x.mapFree || site == x.mapSite) {
 				r := x.choose(n, nil)
-				x.inputs = append(x.inputs, InputRec{Name: "maporder", Kind: "rot", Conc: fmt.Sprint(r)})
+				x.rotations = append(x.rotations, fmt.Sprintf("site%d:rot%d/%d", site, r, n))
 				rot := make([]MapEntry, 0, n)
 				rot = append(rot, it.entries[r:]...)
 				rot = append(rot, it.entries[:r]...)
